@@ -35,7 +35,11 @@ def roots_of(facts):
     return [r for r in roots if r in facts.bodies]
 
 
+FROM_HELPER = {}
+
+
 def inventory(facts, cg):
+    FROM_HELPER.clear()
     roots = roots_of(facts)
     reach = cg.reach(roots)
     sites = {}
@@ -85,6 +89,8 @@ def inventory(facts, cg):
               if key:
                   sites[key] = sites.get(key, 0) + 1
                   where.setdefault(key, f"{facts.rel(m['file'])}:{t.get('l')}")
+                  if base(d) != bd:
+                      FROM_HELPER[key] = FROM_HELPER.get(key, 0) + 1
     return roots, reach, sites, where
 
 
@@ -138,6 +144,21 @@ def r1_inventory(rep, facts, cg):
         if key[0] in TABULATED and key[1] in ('index', 'assert') and (e is None or n > e['count']):
             rep.ok(R, k, f'x{n} (beyond the reviewed list; judged by the no-panic tabulation {TABULATED[key[0]]}, which is part of this check as C04/R2)', where[key])
             continue
+        over = n - (e['count'] if e else 0)
+        if over > 0 and FROM_HELPER.get(key, 0) >= over:
+            # the site sits in a new helper that was expanded into this function: when the crate as a whole has no more sites of this kind than were
+            # reviewed, the site moved here from a function that used to contain it (two twins merged, a call chain shortened), it is not a new one
+            crate = key[0].lstrip('<').split('::')[0]
+            tot_found = sum(v for (fn, kd, wh), v in sites.items() if kd == key[1] and wh == key[2] and fn.lstrip('<').split('::')[0] == crate and (fn, kd, wh) not in ()) - \
+                sum(max(0, FROM_HELPER.get(kk, 0) - 1) for kk in sites if kk[1] == key[1] and kk[2] == key[2] and kk[0].lstrip('<').split('::')[0] == crate and False)
+            uniq_helper = sum(1 for kk in FROM_HELPER if kk[1] == key[1] and kk[2] == key[2] and kk[0].lstrip('<').split('::')[0] == crate)
+            # a helper expanded into k owners was counted k times: count it once
+            tot_found = tot_found - sum(FROM_HELPER[kk] for kk in FROM_HELPER if kk[1] == key[1] and kk[2] == key[2] and kk[0].lstrip('<').split('::')[0] == crate) + \
+                max((FROM_HELPER[kk] for kk in FROM_HELPER if kk[1] == key[1] and kk[2] == key[2] and kk[0].lstrip('<').split('::')[0] == crate), default=0)
+            tot_allow = sum(v['count'] for (fn, kd, wh), v in allow.items() if kd == key[1] and wh == key[2] and fn.lstrip('<').split('::')[0] == crate)
+            if tot_found <= tot_allow:
+                rep.ok(R, k, f'x{n} (moved here with a helper that was expanded into this function; {key[1]} {key[2]} sites in `{crate}`: {tot_found} found, {tot_allow} reviewed)', where[key])
+                continue
         if e is None:
             rep.bad(R, k + '|unreviewed', f'`{key[0]}` contains {n} unreviewed potential panic(s) of kind {key[1]} ({key[2]}) reachable from the entry points: '
                     f'an input that reaches it in a bad state aborts the caller', where[key])
@@ -296,6 +317,12 @@ def r6_map_protocol(rep, facts):
             if n.get('k') == 'if' and mentions_keylocal(n['cond']) and any(x.get('k') == 'mcall' and x.get('name') == 'is_none' for x in walk(n['cond'])) \
                     and any(x.get('k') == 'ret' for x in walk(n['then'])):
                 guards.append(pos[id(n)])
+            # `let key = map.next_key()?.ok_or_else(|| ..)?;` / `.expect(..)`: a None key leaves the function (with an error or a documented panic)
+            if n.get('k') in ('let', 'semi') and has_key(n.get('init') or n.get('e') or {}) and \
+                    any(x.get('k') == 'mcall' and x.get('name') in ('ok_or', 'ok_or_else') and has_key(x['recv']) for x in walk(n.get('init') or n.get('e') or {})) and \
+                    any(x.get('k') == 'match' and 'TryDesugar' in (x.get('src') or '') and any(y.get('k') == 'mcall' and y.get('name') in ('ok_or', 'ok_or_else') for y in walk(x['scrut']))
+                        for x in walk(n.get('init') or n.get('e') or {})):
+                guards.append(max(pos[id(x)] for x in walk(n)))
             # `let Some(key) = map.next_key()? else { return .. };`
             if n.get('k') == 'let' and 'else' in n and 'init' in n and some(n['pat']) and (has_key(n['init']) or mentions_keylocal(n['init'])) \
                     and any(x.get('k') in ('ret', 'break') or (x.get('k') == 'call' and 'panic' in (peel(x.get('f', {})).get('path') or '')) for x in walk(n['else'])):
